@@ -11,3 +11,7 @@ package stream
 //@ property C45
 
 //@ structural perrun-state flow-builders: Map, TryMap, Filter, FlatMap, Flatten, Batch, Buffer, Throttle, Deduplicate, Scan, WithContext, ParallelMap, OrderedParallelMap, FlatMapConcat, FlatMapMerge, makeFlatMapStreamFlow, makeMapFlow
+
+// the same for the source builders (a Source is a reusable description too: its
+// cursor / accumulator belongs to one run)
+//@ structural perrun-state source-builders: Of, Range, Unfold, Tick, FromChannel, FromActor, Concat, Merge, ZipWith, Combine, MergeLatest, MergeSequence, newWeightedMergeSource
